@@ -14,6 +14,8 @@ import (
 	"go/constant"
 	"go/token"
 	"go/types"
+	"sort"
+	"strings"
 )
 
 type FlagEval struct {
@@ -29,11 +31,15 @@ type FlagEval struct {
 	Unknown   []token.Pos     // delegate calls whose flag argument could not be evaluated
 	Unsupport []string        // constructs the interpreter cannot follow
 	steps     int
+	ids       map[types.Object]int
 }
 
 type fenv struct {
 	val   uint64
 	known bool
+	// loc encodes the known values of local variables derived from the flag ("<id>=<value>;" sorted by id): a
+	// comparable string so that states can be de-duplicated
+	loc string
 }
 
 type foutcome int
@@ -55,7 +61,7 @@ func (e *FlagEval) Run(body *ast.BlockStmt, v uint64) {
 		e.Reached = map[uint64]bool{}
 	}
 	e.steps = 0
-	e.execList(body.List, fenv{v, true})
+	e.execList(body.List, fenv{val: v, known: true})
 }
 
 func (e *FlagEval) execList(list []ast.Stmt, env fenv) []fstate {
@@ -191,6 +197,38 @@ func (e *FlagEval) exec(s ast.Stmt, env fenv) []fstate {
 		for _, r := range x.Rhs {
 			e.scan(r, env)
 		}
+		// locals derived from the flag: `mode := flag & mask` keeps its value for later conditions
+		if len(x.Lhs) == len(x.Rhs) && (x.Tok == token.DEFINE || x.Tok == token.ASSIGN) {
+			for i, l := range x.Lhs {
+				id, ok := l.(*ast.Ident)
+				if !ok {
+					continue
+				}
+				o := e.Info.Defs[id]
+				if o == nil {
+					o = e.Info.Uses[id]
+				}
+				if o == nil || o == e.Flag {
+					continue
+				}
+				if _, isVar := o.(*types.Var); !isVar {
+					continue
+				}
+				if rv, rok := e.eval(x.Rhs[i], env); rok {
+					env.loc = setLoc(env.loc, e.objID(o), rv)
+				} else {
+					env.loc = delLoc(env.loc, e.objID(o))
+				}
+			}
+		} else {
+			for _, l := range x.Lhs {
+				if id, ok := l.(*ast.Ident); ok {
+					if o := e.Info.Uses[id]; o != nil && o != e.Flag {
+						env.loc = delLoc(env.loc, e.objID(o))
+					}
+				}
+			}
+		}
 		for i, l := range x.Lhs {
 			id, ok := l.(*ast.Ident)
 			if !ok || e.Flag == nil || (e.Info.Uses[id] != e.Flag && e.Info.Defs[id] != e.Flag) {
@@ -203,15 +241,15 @@ func (e *FlagEval) exec(s ast.Stmt, env fenv) []fstate {
 			rv, rok := e.eval(x.Rhs[i], env)
 			switch x.Tok {
 			case token.ASSIGN, token.DEFINE:
-				env = fenv{rv, rok}
+				env = fenv{rv, rok, env.loc}
 			case token.AND_NOT_ASSIGN:
-				env = fenv{env.val &^ rv, rok && env.known}
+				env = fenv{env.val &^ rv, rok && env.known, env.loc}
 			case token.AND_ASSIGN:
-				env = fenv{env.val & rv, rok && env.known}
+				env = fenv{env.val & rv, rok && env.known, env.loc}
 			case token.OR_ASSIGN:
-				env = fenv{env.val | rv, rok && env.known}
+				env = fenv{env.val | rv, rok && env.known, env.loc}
 			case token.XOR_ASSIGN:
-				env = fenv{env.val ^ rv, rok && env.known}
+				env = fenv{env.val ^ rv, rok && env.known, env.loc}
 			default:
 				env.known = false
 			}
@@ -390,6 +428,11 @@ func (e *FlagEval) eval(x ast.Expr, env fenv) (uint64, bool) {
 		if bit, ok := e.Atoms[e.Info.Uses[n]]; ok && env.known {
 			return (env.val >> bit) & 1, true
 		}
+		if o := e.Info.Uses[n]; o != nil {
+			if v, ok := getLoc(env.loc, e.objID(o)); ok {
+				return v, true
+			}
+		}
 		return 0, false
 	case *ast.SelectorExpr:
 		if bit, ok := e.Atoms[e.Info.Uses[n.Sel]]; ok && env.known {
@@ -508,5 +551,69 @@ func (e *FlagEval) eval(x ast.Expr, env fenv) (uint64, bool) {
 
 // EvalExpr evaluates x with the flag set to v (ok=false when x depends on anything else).
 func (e *FlagEval) EvalExpr(x ast.Expr, v uint64) (uint64, bool) {
-	return e.eval(x, fenv{v, true})
+	return e.eval(x, fenv{val: v, known: true})
+}
+
+// ---- locals derived from the flag ----
+
+func (e *FlagEval) objID(o types.Object) int {
+	if e.ids == nil {
+		e.ids = map[types.Object]int{}
+	}
+	if id, ok := e.ids[o]; ok {
+		return id
+	}
+	e.ids[o] = len(e.ids) + 1
+	return e.ids[o]
+}
+
+func parseLoc(loc string) map[int]uint64 {
+	m := map[int]uint64{}
+	for _, kv := range strings.Split(loc, ";") {
+		if kv == "" {
+			continue
+		}
+		var k int
+		var v uint64
+		if _, err := fmt.Sscanf(kv, "%d=%d", &k, &v); err == nil {
+			m[k] = v
+		}
+	}
+	return m
+}
+
+func encodeLoc(m map[int]uint64) string {
+	keys := make([]int, 0, len(m))
+	for k := range m {
+		keys = append(keys, k)
+	}
+	sort.Ints(keys)
+	var sb strings.Builder
+	for _, k := range keys {
+		fmt.Fprintf(&sb, "%d=%d;", k, m[k])
+	}
+	return sb.String()
+}
+
+func getLoc(loc string, id int) (uint64, bool) {
+	if loc == "" {
+		return 0, false
+	}
+	v, ok := parseLoc(loc)[id]
+	return v, ok
+}
+
+func setLoc(loc string, id int, v uint64) string {
+	m := parseLoc(loc)
+	m[id] = v
+	return encodeLoc(m)
+}
+
+func delLoc(loc string, id int) string {
+	if loc == "" {
+		return loc
+	}
+	m := parseLoc(loc)
+	delete(m, id)
+	return encodeLoc(m)
 }
